@@ -2,12 +2,17 @@
    Statements only; every proof is [exact <lemma>].
 
    [inflected fixed tbl unf suffix] is the model of Rule.inflected (Model/Inflector.v): [tbl] the
-   irregular table, [unf] the parsed uninflected alternatives, [suffix] the (unmodelled, total)
-   ordered regexp rules; [fixed = true] is the code after the "fix:" commit.  Purity is by
+   irregular table, [unf] the parsed uninflected alternatives, [suffix] the ordered regexp rules as
+   an arbitrary total function (the first group of theorems holds for EVERY suffix engine);
+   [fixed = true] is the code after the "fix:" commit.  [api_full] is the COMPLETE model of
+   Pluralize / Singularize: the suffix engine is [suffix_fn] (Model/InflectorRegexp.v: a regexp
+   matcher, ReplaceAllString and template expansion in Gallina) over the rules extracted from
+   rules.go on this run; the "_concrete" theorems are about it and have no parameter left.  Purity is by
    construction: the model of Rule.inflected is a function of the string; what the cache adds is
    covered by the C20_cache_* theorems for every interleaving of concurrent callers. *)
-Require Import Gengo.Base.Bytes Gengo.Model.Inflector Gengo.Gen.InflectorTables Gengo.Model.InflectorApi
-  Gengo.Model.OnceCache Gengo.Proofs.Inflector Gengo.Proofs.OnceCache.
+Require Import Gengo.Base.Bytes Gengo.Model.Inflector Gengo.Model.InflectorRegexp Gengo.Gen.InflectorTables
+  Gengo.Model.InflectorApi Gengo.Model.OnceCache
+  Gengo.Proofs.Inflector Gengo.Proofs.InflectorRegexp Gengo.Proofs.InflectorFull Gengo.Proofs.OnceCache.
 
 (* ---- for every table that satisfies the side conditions, every string ---- *)
 
@@ -58,6 +63,106 @@ Theorem C20_api_prefix_preserved :
 Proof. exact api_prefix_preserved. Qed.
 Print Assumptions C20_api_prefix_preserved.
 
+(* ---- the suffix-rule engine (Model/InflectorRegexp.v): every pattern of the modelled language,
+        every template, every rule list, every string ---- *)
+
+(* Totality of the engine: neither the backtracking matcher (repetition counter) nor the
+   ReplaceAllString loop ever runs out of fuel; [suffix_fn], the plain function the model of
+   Rule.inflected takes, is exactly the result of the fuelled definition. *)
+Theorem C20_suffix_fuel_suffices :
+  forall rules s, suffix_res rules s = Ok (suffix_fn rules s).
+Proof. exact suffix_fuel_suffices. Qed.
+Print Assumptions C20_suffix_fuel_suffices.
+
+(* What the search reports as the leftmost match lies inside the text, at or after the offset the
+   search started from ... *)
+Theorem C20_match_in_text :
+  forall fold r s pos a0 a1 cs, pos <= length s ->
+  search fold r s pos = MYes (a0, a1, cs) -> pos <= a0 /\ a0 <= a1 /\ a1 <= length s.
+Proof. exact search_bounds. Qed.
+Print Assumptions C20_match_in_text.
+
+(* ... and is a match of the pattern in the declarative sense ([matches]: no priorities, no fuel). *)
+Theorem C20_matcher_sound :
+  forall fold r s pos a0 a1 cs,
+  search fold r s pos = MYes (a0, a1, cs) -> exists t', matches fold r a0 (skipn a0 s) a1 t'.
+Proof. exact search_sound. Qed.
+Print Assumptions C20_matcher_sound.
+
+(* A rule only rewrites a suffix: if no pattern matches, the string is returned as it is; otherwise
+   the first rule whose pattern matches rewrites it, and the result starts with everything the input
+   has before that pattern's leftmost match. *)
+Theorem C20_suffix_rules_rewrite_a_suffix :
+  forall rules s,
+  match first_matching rules s with
+  | None => suffix_fn rules s = s
+  | Some (c, a0) => In c rules /\ a0 <= length s /\ exists more, suffix_fn rules s = firstn a0 s ++ more
+  end.
+Proof. exact suffix_fn_shape. Qed.
+Print Assumptions C20_suffix_rules_rewrite_a_suffix.
+
+(* Irregular and uninflected inputs never reach the suffix rules: an irregular word after a word
+   boundary, and any string the uninflected expression matches, is not handed to them, and a string
+   that is not handed to them gets the same result whatever the suffix engine is. *)
+Theorem C20_suffix_rules_not_reached :
+  forall tbl unf, table_wf tbl = true ->
+  (forall p w, irregular tbl w -> at_boundary p = true -> reaches_suffix true tbl unf (p ++ w) = false)
+  /\ (forall s, uninflected_match unf s = true -> reaches_suffix true tbl unf s = false)
+  /\ (forall s, reaches_suffix true tbl unf s = false ->
+       forall f g, inflected true tbl unf f s = inflected true tbl unf g s)
+  /\ (forall s, reaches_suffix true tbl unf s = true -> forall f, inflected true tbl unf f s = Ok (f s)).
+Proof.
+  exact (fun tbl unf Hwf =>
+    conj (irregular_never_reaches_suffix tbl unf Hwf)
+   (conj (uninflected_never_reaches_suffix true tbl unf)
+   (conj (inflected_suffix_independent true tbl unf) (inflected_reaches_suffix tbl unf)))).
+Qed.
+Print Assumptions C20_suffix_rules_not_reached.
+
+(* ---- the COMPLETE model of Pluralize / Singularize: tables AND rules extracted on this run ---- *)
+
+Theorem C20_api_total_concrete :
+  forall plural s, exists r, api_full true plural s = Ok r.
+Proof. exact api_full_total. Qed.
+Print Assumptions C20_api_total_concrete.
+
+Theorem C20_api_prefix_preserved_concrete :
+  forall plural p w, irregular (api_table plural) w -> at_boundary p = true ->
+  exists r, api_full true plural w = Ok r /\ api_full true plural (p ++ w) = Ok (p ++ r).
+Proof. exact api_full_prefix_preserved. Qed.
+Print Assumptions C20_api_prefix_preserved_concrete.
+
+Theorem C20_api_irregular_word_alone_concrete :
+  forall plural w, irregular (api_table plural) w ->
+  exists c w' d repl, w = c :: w' /\ lookup (map to_lower w) (api_table plural) = Some (d :: repl)
+    /\ api_full true plural w = Ok (c :: repl).
+Proof. exact api_full_irregular_alone. Qed.
+Print Assumptions C20_api_irregular_word_alone_concrete.
+
+(* the answer to an irregular word after a boundary does not come from the suffix rules *)
+Theorem C20_api_irregular_skips_suffix_rules_concrete :
+  forall plural p w, irregular (api_table plural) w -> at_boundary p = true ->
+  api_reaches_suffix plural (p ++ w) = false
+  /\ forall engine, api_full true plural (p ++ w) = api true plural engine (p ++ w).
+Proof.
+  exact (fun plural p w Hi Hb =>
+    conj (api_irregular_skips_suffix_rules plural p w Hi Hb)
+         (api_not_reaching_is_independent plural (p ++ w) (api_irregular_skips_suffix_rules plural p w Hi Hb))).
+Qed.
+Print Assumptions C20_api_irregular_skips_suffix_rules_concrete.
+
+(* every string that does reach the suffix rules: unchanged if no rule matches, otherwise the text
+   before the first matching rule's leftmost match is kept *)
+Theorem C20_api_suffix_shape_concrete :
+  forall plural s, api_reaches_suffix plural s = true ->
+  match first_matching (api_rules plural) s with
+  | None => api_full true plural s = Ok s
+  | Some (c, a0) => In c (api_rules plural) /\ a0 <= length s
+                    /\ exists more, api_full true plural s = Ok (firstn a0 s ++ more)
+  end.
+Proof. exact api_full_suffix_shape. Qed.
+Print Assumptions C20_api_suffix_shape_concrete.
+
 (* ---- the memoisation (sync.Map of sync.OnceValue closures), every schedule ---- *)
 
 (* For every function f, every assignment of arguments to (unboundedly many) concurrent calls and
@@ -99,6 +204,22 @@ Theorem C20_concurrent_calls :
   exists r, v = Ok r /\ api true plural suffix (keys t) = Ok r.
 Proof. exact concurrent_api. Qed.
 Print Assumptions C20_concurrent_calls.
+
+(* the same for the complete model: no parameter left *)
+Theorem C20_concurrent_calls_concrete :
+  forall plural (keys : nat -> bytes) sched t v,
+  phases _ _ (run bytes (res bytes) bytes_eqb (api_full true plural) keys sched (init _ _)) t = Done v ->
+  exists r, v = Ok r /\ api_full true plural (keys t) = Ok r.
+Proof. exact concurrent_api_full. Qed.
+Print Assumptions C20_concurrent_calls_concrete.
+
+Theorem C20_cache_same_result_concrete :
+  forall plural (keys : nat -> bytes) sched t1 t2 v1 v2,
+  keys t1 = keys t2 ->
+  phases _ _ (run bytes (res bytes) bytes_eqb (api_full true plural) keys sched (init _ _)) t1 = Done v1 ->
+  phases _ _ (run bytes (res bytes) bytes_eqb (api_full true plural) keys sched (init _ _)) t2 = Done v2 -> v1 = v2.
+Proof. exact (fun plural => cache_same_result bytes (res bytes) bytes_eqb bytes_eqb_eq (api_full true plural)). Qed.
+Print Assumptions C20_cache_same_result_concrete.
 
 (* ---- history: Rule.inflected before the "fix:" commit ---- *)
 
@@ -149,3 +270,72 @@ Example C20_example_schedule :
   phases _ _ st 0 = Done (Ok (bs "old-people")) /\ phases _ _ st 1 = Done (Ok (bs "old-people"))
   /\ length (cache _ _ st) = 1.
 Proof. vm_compute. repeat split. Qed.
+
+(* ---- non-vacuity of the complete model ----
+   On the data of this run only what the repository's own test table (api_test.go) also pins, so that
+   an edit of the rule data that keeps the maintainers' tests green keeps these green too. *)
+
+Example C20_example_quiz :
+  api_full true true (bs "quiz") = Ok (bs "quizzes")
+  /\ api_reaches_suffix true (bs "my quiz") = true
+  /\ api_full true true (bs "my quiz") = Ok (bs "my quizzes").
+Proof. vm_compute. repeat split. Qed.
+
+Example C20_example_matrices :
+  api_full true false (bs "matrices") = Ok (bs "matrix")
+  /\ api_full true false (hx "e697a5e69cac206d656e7573") = Ok (hx "e697a5e69cac206d656e75").
+Proof. vm_compute. repeat split. Qed.
+
+(* the hypotheses of C20_api_suffix_shape_concrete / C20_api_irregular_skips_suffix_rules_concrete are satisfiable *)
+Example C20_example_reaches :
+  (exists s c a0, api_reaches_suffix true s = true /\ first_matching (api_rules true) s = Some (c, a0) /\ 0 < a0)
+  /\ api_reaches_suffix true (bs "old-person") = false /\ api_reaches_suffix true (bs "salesperson") = true.
+Proof.
+  split; [|vm_compute; split; reflexivity].
+  exists (bs "my quiz"). vm_compute. eexists. eexists. repeat split. lia.
+Qed.
+
+(* ---- the engine on a FIXED rule list (source strings written here, compiled by the model): these
+   do not depend on rules.go ---- *)
+
+Definition ex_plural : list crule := rules_of_src [
+  (bs "(?i)(s)tatus$", bs "${1}${2}tatuses"); (bs "(?i)([m|l])ouse$", bs "${1}ice");
+  (bs "(?i)([^aeiouy]|qu)y$", bs "${1}ies"); (bs "(?i)(hive)$", bs "$1s");
+  (bs "s$", bs "s"); (bs "^$", bs ""); (bs "$", bs "s") ].
+
+Definition ex_singular : list crule := rules_of_src [
+  (bs "(?i)^(.*)(menu)s$", bs "${1}${2}"); (bs "(?i)(alias)(es)*$", bs "$1");
+  (bs "(?i)([ftw]ax)es", bs "$1"); (bs "([^a])uses$", bs "${1}us");
+  (bs "(?i)(analy|diagno|^ba|(p)arenthe|(p)rogno|(s)ynop|(t)he)ses$", bs "${1}${2}sis");
+  (bs "(?i)s$", bs "") ].
+
+Example C20_example_engine_compiles : length ex_plural = 7 /\ length ex_singular = 6.
+Proof. vm_compute. split; reflexivity. Qed.
+
+(* U+017F matches an "(?i)s" literal and is captured; e-acute and an invalid byte are one rune each for
+   "[^aeiouy]", and so is a newline; "$" alone matches the empty string at the end, exactly once *)
+Example C20_example_engine_non_ascii :
+  suffix_fn ex_plural (hx "6d6f75c5bf65") = bs "mice"
+  /\ suffix_fn ex_plural (hx "c5bf7461747573") = hx "c5bf74617475736573"
+  /\ suffix_fn ex_plural (hx "c3a979") = hx "c3a9696573"
+  /\ suffix_fn ex_plural (hx "ff79") = hx "ff696573"
+  /\ suffix_fn ex_plural (hx "0a79") = hx "0a696573"
+  /\ suffix_fn ex_plural (bs "bus") = bs "bus" /\ suffix_fn ex_plural [] = [] /\ suffix_fn ex_plural (bs "cat") = bs "cats".
+Proof. vm_compute. repeat split. Qed.
+
+(* an unanchored pattern is replaced at every match; "(es)*" is greedy; "." stops at a newline, so the
+   first rule does not match and the last one does; "^" inside an alternative; "${2}" is set by "(p)arenthe" *)
+Example C20_example_engine_singular :
+  suffix_fn ex_singular (bs "taxesfaxes") = bs "taxfax"
+  /\ suffix_fn ex_singular (bs "aliaseses") = bs "alias"
+  /\ suffix_fn ex_singular (bs "food_menus") = bs "food_menu"
+  /\ suffix_fn ex_singular (hx "610a6d656e7573") = hx "610a6d656e75"
+  /\ suffix_fn ex_singular (bs "bases") = bs "basis" /\ suffix_fn ex_singular (bs "abases") = bs "abase"
+  /\ suffix_fn ex_singular (bs "parentheses") = bs "parenthepsis"
+  /\ suffix_fn ex_singular (bs "viruses") = bs "virus" /\ suffix_fn ex_singular (bs "causes") = bs "cause".
+Proof. vm_compute. repeat split. Qed.
+
+(* "$1s" names the group "1s" (Regexp.expand takes the longest name), which does not exist *)
+Example C20_example_engine_template_name :
+  suffix_fn ex_plural (bs "hive") = [] /\ option_map snd (first_matching ex_plural (bs "my hive")) = Some 3.
+Proof. vm_compute. split; reflexivity. Qed.
